@@ -395,6 +395,10 @@ func (c09) Run(ctx *core.RunCtx) {
 		}
 		// snapshots of everything that is not the designated output
 		h0, h1 := hashCt(op0), hashOperand(op1)
+		poolHash := make([]uint64, len(pool))
+		for i, p := range pool {
+			poolHash[i] = hashCt(p)
+		}
 		nPoison := 0
 		if poison {
 			st := core.PoisonScratch(sys, core.NewXoshiro(g.Next()))
@@ -432,6 +436,21 @@ func (c09) Run(ctx *core.RunCtx) {
 				ctx.Fail("inputs", cls+"|op1-modified", "%s modified its second operand of type %s (%s)", op.name, kindName(op1), patName)
 				return
 			}
+		}
+		// values that are not arguments of this call at all (results of earlier steps) stay as they are: an
+		// earlier output that still shares a metadata object or a polynomial with one of them would change here
+		for i, p := range pool {
+			if p == out || p == op0 || op1IsCt && p == c1 {
+				continue
+			}
+			if hashCt(p) != poolHash[i] {
+				ctx.Fail("inputs", cls+"|bystander-modified", "%s (%s) changed a ciphertext that is not among its arguments (value %d of the pool: the result or an operand of an earlier step)", op.name, patName, i)
+				return
+			}
+		}
+		if sysSt.kind == 0 && out != op0 && out.MetaData != nil && out.MetaData == op0.MetaData {
+			ctx.Fail("inputs", cls+"|metadata-object-shared", "%s left its output sharing the metadata object of its first operand: a later change of one changes the other", op.name)
+			return
 		}
 		// (b) status
 		aliased := out == op0 || (op1IsCt && (out == c1 || c1 == op0))
